@@ -9,6 +9,7 @@
 //! logged so that the Coq model can be given the same answers.
 
 use crate::bigrat::{BigInt, BigRat};
+use crate::sym::{self, Node};
 use num_traits::{Float, Num, NumCast, One, ToPrimitive, Zero};
 use std::cell::RefCell;
 use std::cmp::Ordering;
@@ -263,12 +264,29 @@ fn alloc(v: Val) -> Xq {
 
 impl Xq {
     pub fn new(r: BigRat) -> Xq {
+        if sym::on() {
+            return Xq(sym::mk(Node::Const(r)));
+        }
         alloc(Val::Fin(r))
+    }
+    /// symbolic mode: the i-th input of the function under symbolic execution
+    pub fn input(i: u32) -> Xq {
+        Xq(sym::mk(Node::In(i)))
+    }
+    /// symbolic mode: the node this scalar denotes
+    pub fn node_id(self) -> u32 {
+        self.0
     }
     pub fn q(n: i128, d: i128) -> Xq {
         Xq::new(BigRat::from_i(n, d))
     }
     pub fn val(self) -> Val {
+        if sym::on() {
+            return match sym::konst(self.0) {
+                Some(r) => Val::Fin(r),
+                None => sym::unsupported("concrete value of a symbolic scalar"),
+            };
+        }
         ST.with(|s| s.borrow().arena[self.0 as usize].clone())
     }
     pub fn rat(self) -> BigRat {
@@ -278,15 +296,24 @@ impl Xq {
         }
     }
     pub fn nan_value() -> Xq {
+        if sym::on() {
+            sym::unsupported("NaN");
+        }
         alloc(Val::Nan)
     }
     pub fn inf_value(neg: bool) -> Xq {
+        if sym::on() {
+            sym::unsupported("infinity");
+        }
         alloc(if neg { Val::NegInf } else { Val::PosInf })
     }
 }
 
 impl fmt::Debug for Xq {
     fn fmt(&self, f: &mut fmt::Formatter) -> fmt::Result {
+        if sym::on() {
+            return write!(f, "<sym {}>", self.0);
+        }
         match self.val() {
             Val::Fin(r) => write!(f, "{}", r),
             v => write!(f, "{:?}", v),
@@ -296,6 +323,9 @@ impl fmt::Debug for Xq {
 
 impl PartialEq for Xq {
     fn eq(&self, o: &Xq) -> bool {
+        if sym::on() {
+            return sym::cmp("eqb", self.0, o.0);
+        }
         match (self.val(), o.val()) {
             (Val::Nan, _) | (_, Val::Nan) => false,
             (a, b) => a == b,
@@ -303,7 +333,40 @@ impl PartialEq for Xq {
     }
 }
 impl PartialOrd for Xq {
+    fn lt(&self, o: &Xq) -> bool {
+        if sym::on() {
+            return sym::cmp("ltb", self.0, o.0);
+        }
+        self.partial_cmp(o) == Some(Ordering::Less)
+    }
+    fn le(&self, o: &Xq) -> bool {
+        if sym::on() {
+            return sym::cmp("leb", self.0, o.0);
+        }
+        matches!(self.partial_cmp(o), Some(Ordering::Less) | Some(Ordering::Equal))
+    }
+    fn gt(&self, o: &Xq) -> bool {
+        if sym::on() {
+            return sym::cmp("ltb", o.0, self.0);
+        }
+        self.partial_cmp(o) == Some(Ordering::Greater)
+    }
+    fn ge(&self, o: &Xq) -> bool {
+        if sym::on() {
+            return sym::cmp("leb", o.0, self.0);
+        }
+        matches!(self.partial_cmp(o), Some(Ordering::Greater) | Some(Ordering::Equal))
+    }
     fn partial_cmp(&self, o: &Xq) -> Option<Ordering> {
+        if sym::on() {
+            return Some(if sym::cmp("ltb", self.0, o.0) {
+                Ordering::Less
+            } else if sym::cmp("ltb", o.0, self.0) {
+                Ordering::Greater
+            } else {
+                Ordering::Equal
+            });
+        }
         match (self.val(), o.val()) {
             (Val::Nan, _) | (_, Val::Nan) => None,
             (Val::Fin(a), Val::Fin(b)) => Some(a.cmp(&b)),
@@ -320,12 +383,19 @@ macro_rules! binop {
             type Output = Xq;
             #[inline]
             fn $f(self, o: Xq) -> Xq {
+                if sym::on() {
+                    return Xq(sym::mk(Node::Bin(stringify!($m), self.0, o.0)));
+                }
                 Xq::new(self.rat().$m(&o.rat()))
             }
         }
         impl $TA for Xq {
             #[inline]
             fn $fa(&mut self, o: Xq) {
+                if sym::on() {
+                    *self = Xq(sym::mk(Node::Bin(stringify!($m), self.0, o.0)));
+                    return;
+                }
                 *self = Xq::new(self.rat().$m(&o.rat()));
             }
         }
@@ -339,6 +409,9 @@ binop!(Rem, rem, RemAssign, rem_assign, rem);
 impl Neg for Xq {
     type Output = Xq;
     fn neg(self) -> Xq {
+        if sym::on() {
+            return Xq(sym::mk(Node::Un("opp", self.0)));
+        }
         Xq::new(self.rat().neg())
     }
 }
@@ -347,6 +420,9 @@ impl Zero for Xq {
         Xq::new(BigRat::zero())
     }
     fn is_zero(&self) -> bool {
+        if sym::on() {
+            return sym::cmp("eqb", self.0, Xq::new(BigRat::zero()).0);
+        }
         matches!(self.val(), Val::Fin(r) if r.is_zero())
     }
 }
@@ -392,7 +468,11 @@ impl NumCast for Xq {
 }
 
 fn unary(x: Xq, f: impl Fn(&BigRat) -> BigRat) -> Xq {
+    // symbolic mode: x.rat() is only defined on constants (anything else is reported as unsupported)
     Xq::new(f(&x.rat()))
+}
+fn sym_un(op: &'static str, x: Xq) -> Xq {
+    Xq(sym::mk(Node::Un(op, x.0)))
 }
 
 pub fn eps64() -> BigRat {
@@ -422,6 +502,9 @@ impl Float for Xq {
         Xq::new(BigRat::from_f64(f64::MAX))
     }
     fn epsilon() -> Xq {
+        if sym::on() {
+            return Xq(sym::mk(Node::Eps));
+        }
         Xq::new(eps64())
     }
     fn is_nan(self) -> bool {
@@ -431,6 +514,12 @@ impl Float for Xq {
         matches!(self.val(), Val::PosInf | Val::NegInf)
     }
     fn is_finite(self) -> bool {
+        if sym::on() {
+            if sym::konst(self.0).is_some() {
+                return true;
+            }
+            return sym::decide("is_finite", vec![self.0], 0);
+        }
         matches!(self.val(), Val::Fin(_))
     }
     fn is_normal(self) -> bool {
@@ -473,6 +562,10 @@ impl Float for Xq {
         unary(self, |r| r.sub(&BigRat::new(r.trunc(), BigInt::one())))
     }
     fn abs(self) -> Xq {
+        if sym::on() && sym::konst(self.0).is_none() {
+            // Scalar.fabs: if x < 0 then -x else x
+            return if self < Xq::zero() { -self } else { self };
+        }
         unary(self, |r| r.abs())
     }
     fn signum(self) -> Xq {
@@ -497,15 +590,31 @@ impl Float for Xq {
         self * a + b
     }
     fn recip(self) -> Xq {
+        if sym::on() {
+            return sym_un("inv", self);
+        }
         unary(self, |r| r.recip())
     }
     fn powi(self, n: i32) -> Xq {
+        if sym::on() {
+            if n < 1 || n > 8 {
+                sym::unsupported("powi exponent");
+            }
+            let mut r = self;
+            for _ in 1..n {
+                r = r * self;
+            }
+            return r;
+        }
         unary(self, |r| r.pow(n))
     }
     fn powf(self, _: Xq) -> Xq {
         panic!("unmodelled: powf")
     }
     fn sqrt(self) -> Xq {
+        if sym::on() {
+            return sym_un("sqrt", self);
+        }
         let r = self.rat();
         match r.exact_sqrt() {
             Some(s) => Xq::new(s),
@@ -564,14 +673,23 @@ impl Float for Xq {
         self.sin_cos().1
     }
     fn tan(self) -> Xq {
+        if sym::on() {
+            return sym_un("tan", self);
+        }
         let (s, c) = self.sin_cos();
         s / c
     }
     fn sin_cos(self) -> (Xq, Xq) {
+        if sym::on() {
+            return (sym_un("sin", self), sym_un("cos", self));
+        }
         let (s, c) = oracle_sincos(&self.rat());
         (Xq::new(s), Xq::new(c))
     }
     fn asin(self) -> Xq {
+        if sym::on() {
+            return sym_un("asin", self);
+        }
         let x = self.rat();
         let h = std::f64::consts::FRAC_PI_2;
         let xf = x.to_f64();
@@ -585,6 +703,9 @@ impl Float for Xq {
         Xq::new(r)
     }
     fn acos(self) -> Xq {
+        if sym::on() {
+            return sym_un("acos", self);
+        }
         let x = self.rat();
         let xf = x.to_f64();
         let r = oracle_inverse("acos", 0.0, std::f64::consts::PI, true, true, &|c, _s| *c == x, &|| xf.acos());
@@ -597,6 +718,9 @@ impl Float for Xq {
         Xq::new(r)
     }
     fn atan(self) -> Xq {
+        if sym::on() {
+            return sym_un("atan", self);
+        }
         let x = self.rat();
         let h = std::f64::consts::FRAC_PI_2;
         let xf = x.to_f64();
@@ -611,6 +735,9 @@ impl Float for Xq {
     }
     fn atan2(self, other: Xq) -> Xq {
         // self = y, other = x
+        if sym::on() {
+            return Xq(sym::mk(Node::Bin("atan2", self.0, other.0)));
+        }
         let y = self.rat();
         let x = other.rat();
         let r = if y.is_zero() && x.is_zero() {
@@ -673,9 +800,15 @@ fn fin2(a: &Xq, b: &Xq) -> Option<(BigRat, BigRat)> {
 impl approx::AbsDiffEq for Xq {
     type Epsilon = Xq;
     fn default_epsilon() -> Xq {
+        if sym::on() {
+            return Xq(sym::mk(Node::Eps));
+        }
         Xq::new(eps64())
     }
     fn abs_diff_eq(&self, o: &Xq, e: Xq) -> bool {
+        if sym::on() {
+            return sym::decide("abs_diff_eq", vec![self.0, o.0, e.0], 0);
+        }
         match fin2(self, o) {
             Some((a, b)) => a.sub(&b).abs() <= e.rat(),
             None => self == o,
@@ -684,9 +817,15 @@ impl approx::AbsDiffEq for Xq {
 }
 impl approx::RelativeEq for Xq {
     fn default_max_relative() -> Xq {
+        if sym::on() {
+            return Xq(sym::mk(Node::MaxRel));
+        }
         Xq::new(eps64())
     }
     fn relative_eq(&self, o: &Xq, e: Xq, r: Xq) -> bool {
+        if sym::on() {
+            return sym::decide("relative_eq", vec![self.0, o.0, e.0, r.0], 0);
+        }
         match fin2(self, o) {
             Some((a, b)) => {
                 if a == b {
@@ -708,6 +847,9 @@ impl approx::UlpsEq for Xq {
         4
     }
     fn ulps_eq(&self, o: &Xq, e: Xq, u: u32) -> bool {
+        if sym::on() {
+            return sym::decide("ulps_eq", vec![self.0, o.0, e.0], u);
+        }
         match fin2(self, o) {
             Some((a, b)) => {
                 let d = a.sub(&b).abs();
